@@ -17,7 +17,7 @@ def run(task):
     fr=verify_function(repo,ct,REG,con,mutate=lambda i:m)
     if fr.unsupported: return (q,k,desc,'UNSUPPORTED',fr.unsupported[:80])
     for ob in fr.obligations:
-        v=discharge(ob, fr.ex.base, use_cvc5=False)
+        v=discharge(ob, (fr.ex.base+fr.ex.extra_axioms), use_cvc5=False)
         if v.status not in ('PROVED','COVERED'):
             return (q,k,desc,'KILLED',ob.name)
     return (q,k,desc,'SURVIVED','')
